@@ -2,7 +2,7 @@
    Pinned statements about every interleaving of loop iterations and controller actions of
    Model/Resource.v, for an arbitrary program (cycle effect) per resource. *)
 From Coq Require Import List Bool Arith.
-From TP Require Import Model.Resource Proofs.C20Proofs.
+From TP Require Import Model.Resource Proofs.C20Proofs Model.ResourceGate Proofs.C20Gate.
 Import ListNotations.
 
 (* whatever each cycle preserves on the shared set, every interleaving preserves: a cycle works on
@@ -52,6 +52,24 @@ Theorem c20_nonvacuous :
   s_shared _ _ s = (8, 8) /\ map (r_cycles nat) (s_res _ _ s) = [3; 2; 3] /\ map (r_state nat) (s_res _ _ s) = [Running; Stopped; Faulted]
   /\ map (r_saves nat) (s_res _ _ s) = [0; 1; 0].
 Proof. exact demo_run. Qed.
+(* ---- the start gate (Model/ResourceGate.v): a resource waiting at the gate runs no cycle and saves nothing; with the timed wait
+   of the code (or with a stop() that notified the gate) no reachable state is wedged - a stop request or an opened gate can always
+   be acted upon; a stop at the closed gate ends in Stopped at the next wake-up, an opened gate lets the thread in; an untimed wait
+   with a stop() that does not notify the gate is refuted: the thread stays at the gate for ever *)
+Theorem gate_runs_nothing : forall c ls, g_cycles (grun c ginit ls) = 0 /\ g_saves (grun c ginit ls) = 0.
+Proof. exact gate_runs_nothing_l. Qed.
+Theorem gate_never_wedged : forall c, timed c = true \/ stop_notifies c = true -> forall ls, wedged c (grun c ginit ls) = false.
+Proof. exact gate_never_wedged_l. Qed.
+Theorem gate_stop_terminates : forall c s, g_phase s = GWait -> g_open s = false -> wake_enabled c (gstep c s GStop) = true ->
+  g_phase (gstep c (gstep c s GStop) GWake) = GStopped.
+Proof. exact gate_stop_terminates_l. Qed.
+Theorem gate_open_enters : forall c s, g_phase s = GWait -> g_phase (gstep c (gstep c s GOpen) GWake) = GEntered.
+Proof. exact gate_open_enters_l. Qed.
+Theorem untimed_gate_wait_refuted : let c := {| timed := false; stop_notifies := false |} in
+  wedged c (grun c ginit [GStop]) = true /\ forall n, g_phase (grun c ginit (GStop :: repeat GWake n)) = GWait.
+Proof. exact untimed_wait_wedges. Qed.
+Theorem gate_nonvacuous : timed code_cfg = true \/ stop_notifies code_cfg = true.
+Proof. exact code_cfg_ok. Qed.
 Print Assumptions shared_invariants_are_preserved.
 Print Assumptions counter_no_lost_update.
 Print Assumptions paused_runs_no_cycle.
@@ -62,3 +80,8 @@ Print Assumptions retained_data_saved_once.
 Print Assumptions fault_halts_only_itself.
 Print Assumptions others_are_untouched.
 Print Assumptions live_resource_makes_progress.
+Print Assumptions gate_runs_nothing.
+Print Assumptions gate_never_wedged.
+Print Assumptions gate_stop_terminates.
+Print Assumptions gate_open_enters.
+Print Assumptions untimed_gate_wait_refuted.
